@@ -28,7 +28,7 @@ def step (built : Bool) (op impl : String) : Bool × String × String :=
   | ["mut", cls, _, _, _] =>
     if !built then (built, "no-archive", "ok")
     else if impl == "skip" ∨ impl == "bad-op" then (built, "-", "ok")
-    else if cls == "chunk-bitsweep" then
+    else if cls == "chunk-bitsweep" ∨ cls == "chunk-bitsweep-empty" then
       -- every single-bit change of a stored chunk object must be detected (c38_detects_chunk)
       let nat := fun (k : String) => ((impl.splitOn " ").filterMap (fun t => match t.splitOn "=" with
         | [a, v] => if a == k then v.toNat? else none | _ => none)).head?
